@@ -2598,7 +2598,7 @@ where
             crate::verif::tick::tick("repair.flip");
             crate::verif::tick::iter(
                 "repair.flip",
-                stats.flips_performed,
+                crate::verif::tick::flips_since_attempt(),
                 max_flips.saturating_add(1),
             );
             if crate::verif::fail::hit("repair.after_flip") {
@@ -4153,7 +4153,7 @@ where
         crate::verif::tick::tick("repair.flip");
         crate::verif::tick::iter(
             "repair.flip",
-            stats.flips_performed,
+            crate::verif::tick::flips_since_attempt(),
             max_flips.saturating_add(1),
         );
         if crate::verif::fail::hit("repair.after_flip") {
@@ -4341,7 +4341,7 @@ where
         crate::verif::tick::tick("repair.flip");
         crate::verif::tick::iter(
             "repair.flip",
-            stats.flips_performed,
+            crate::verif::tick::flips_since_attempt(),
             max_flips.saturating_add(1),
         );
         if crate::verif::fail::hit("repair.after_flip") {
@@ -4524,7 +4524,7 @@ where
         crate::verif::tick::tick("repair.flip");
         crate::verif::tick::iter(
             "repair.flip",
-            stats.flips_performed,
+            crate::verif::tick::flips_since_attempt(),
             max_flips.saturating_add(1),
         );
         if crate::verif::fail::hit("repair.after_flip") {
@@ -4710,7 +4710,7 @@ where
         crate::verif::tick::tick("repair.flip");
         crate::verif::tick::iter(
             "repair.flip",
-            stats.flips_performed,
+            crate::verif::tick::flips_since_attempt(),
             max_flips.saturating_add(1),
         );
         if crate::verif::fail::hit("repair.after_flip") {
